@@ -34,6 +34,11 @@ pub fn rng_for(prop: &str, seed: u64, index: u64) -> PtRng {
    PtRng(TestRng::from_seed(RngAlgorithm::ChaCha, &bytes))
 }
 
+static EXCLUDED: std::sync::Mutex<BTreeMap<String, u64>> = std::sync::Mutex::new(BTreeMap::new());
+
+/// counts a generated program that was dropped because it has the trigger shape of an open known finding
+pub fn count_excluded(id: &str) { *EXCLUDED.lock().unwrap().entry(id.to_string()).or_insert(0) += 1; }
+
 pub struct MemberSpec {
    pub prog: Program,
    pub opts: PrintOpts,
@@ -213,6 +218,7 @@ fn main() {
    write_if_changed(&ws.join(".cargo/config.toml"), "[net]\noffline = true\n");
    let plan = serde_json::json!({
       "runner": format!("run_{}{}", if o.from_replay.is_some() { "replay_" } else { "" }, o.prop.to_lowercase()),
+      "excluded_by_known_findings": EXCLUDED.lock().unwrap().clone(),
       "prop": o.prop, "tier": o.tier, "seed": o.seed, "batches": nb, "programs": total_programs,
       "groups": groups.len(), "index": index,
    });
